@@ -13,8 +13,10 @@
   Proved: every site is unreachable / every loop terminates for all ASTs that participle's grammar
   can produce (`Expr.Shaped`: at most two ranges per list entry), including sub-queries and
   variables; the DNF size bound.  Not proved (tie only): participle's lexer/PEG layer;
-  `reftime_shift_equiv` (results for two reference times) — the fuzz harness compares two parses
-  modulo reference time instead.
+  `reftime_shift_equiv` (results for two reference times) is proved in Pk/Props/C14Shift.lean
+  (`parse r2 e = (parse r1 e).map (shiftParsed (r2 - r1))` for `TimeSafe` time filters; outcome kind
+  independent of the reference time for EVERY expression; counterexample for `@ftime@ ± <absolute>`);
+  the fuzz harness also compares two real parses modulo the reference time.
 -/
 import Pk.Proofs.Query.Laws
 import Pk.Proofs.Query.Total
